@@ -23,11 +23,11 @@ PROP = dict(
         "MM.C15.C15_at_limit",
     ],
     spec=True,
-    rule="cases = random topology (chain/ring/star/clique/tree+extra edges, 2..5 agents, rarely 9..20; thorough up to 7) x random local routes (CIDR v4/v6, domain exact/wildcard, forward; base metrics 0..10 and 65534) x op schedule written while driving the real mesh: bring links up (with/without table replay, before or between deliveries), deliver/duplicate/lose a chosen queued frame, announce, expire a cached key, replay a table, stale cleanup; every case drains to quiescence and dumps the whole state. After every op both sides print the acting agent's counter, seen cache, all four tables (metric, sequence, path, last-update tick) and the touched queues (origin, sequence, path, seen-by, routes+metrics). Non-trivial = an op that handled a frame, replayed a table or changed a cache/table. Engine c15 uses hop limits 1..4 (rarely 5, 8, 16) on chains, rings and meshes longer than the limit. spec: no printed table entry has a path longer than the limit, no forwarded frame (seen-by longer than one) carries one. Engine c15w builds config.Default() with routing.max_hops = h, runs the real agent.New and reads the limit the agent's flooder ended up with (must be h), and checks config.Validate's 1..255 range",
+    rule="cases = random topology (chain/ring/star/clique/tree+extra edges, 2..5 agents, rarely 9..20; thorough up to 7) x random local routes (CIDR v4/v6, domain exact/wildcard, forward; base metrics 0..10 and 65534) x op schedule written while driving the real mesh: bring links up (with/without table replay, before or between deliveries), deliver/duplicate/lose a chosen queued frame, announce, withdraw, expire a cached key, replay a table, stale cleanup; every case drains to quiescence and dumps the whole state. After every op both sides print the acting agent's counter, seen cache, all four tables (metric, sequence, path, last-update tick) and the touched queues (origin, sequence, path, seen-by, routes+metrics). Non-trivial = an op that handled a frame, replayed a table or changed a cache/table. Engine c15 uses hop limits 1..4 (rarely 5, 8, 16) on chains, rings and meshes longer than the limit. spec: no printed table entry has a path longer than the limit, no forwarded frame (seen-by longer than one) carries one. Engine c15w builds config.Default() with routing.max_hops = h, runs the real agent.New and reads the limit the agent's flooder ended up with (must be h), and checks config.Validate's 1..255 range",
     nontrivial=lambda op, out: out.startswith(("r=new", "r=seen", "r=drop", "r=ord:", "r=removed")),
     trusted_base=[
-        'MM/Model/C11.lean models HandleRouteAdvertise / floodAdvertisementEncrypted / floodFrame / AnnounceLocalRoutes / SendFullTable / cleanupSeenCache (flood.go), Process*RouteAdvertise / AddLocal*Route / CleanupStale*Routes (manager.go) and the four AddRoute update rules; tied to the code by the differential run (N real Flooder+Manager pairs over a queueing PeerSender)',
-        'harness/main/eng_c11.go delivers frames the way Agent.handleRouteAdvertise does (DecodeRouteAdvertise, then HandleRouteAdvertise with the decoded fields); Agent.handlePeerConnected -> SendFullTable is the `replay` op',
+        'MM/Model/C11.lean models HandleRouteAdvertise / HandleRouteWithdraw / floodAdvertisementEncrypted / floodWithdrawal / floodFrame / AnnounceLocalRoutes / WithdrawLocalRoutes / SendFullTable / cleanupSeenCache (flood.go), Process*RouteAdvertise / AddLocal*Route / CleanupStale*Routes (manager.go) and the four AddRoute update rules; tied to the code by the differential run (N real Flooder+Manager pairs over a queueing PeerSender)',
+        'harness/main/eng_c11.go delivers frames the way Agent.handleRouteAdvertise / handleRouteWithdraw do (DecodeRouteAdvertise / DecodeRouteWithdraw, then HandleRouteAdvertise / HandleRouteWithdraw with the decoded fields); Agent.handlePeerConnected -> SendFullTable is the `replay` op',
         'harness accessors (overlay, add-only): flood.C11ExpireSeen runs the production cleanupSeenCache on one aged entry; routing.C11Stamp rewrites LastUpdate of the entries touched by an op to a logical tick',
         "lib/floodlib.py: the model takes SendFullTable's origin order from the implementation's answer and checks it is a permutation",
     ],
@@ -35,7 +35,7 @@ PROP = dict(
         'time is a logical clock (one tick per op); seen-cache expiry is an op that may remove any key at any moment (over-approximates the TTL)',
         'u64 sequence numbers do not wrap; paths and seen-by lists have < 256 entries (one-byte count on the wire); < 256 routes per advertisement (C06)',
         "per-key route lists have <= 12 entries (Go's sort.Slice is a stable insertion sort only up to 12 elements)",
-        'links are only added (stable topology); peer disconnect and ROUTE_WITHDRAW are outside this model',
+        'links are only added (stable topology); peer disconnect (route removal per next hop) is outside this model. ROUTE_WITHDRAW (WithdrawLocalRoutes / HandleRouteWithdraw / floodWithdrawal) IS modelled: it shares the seen cache, the loop test and floodFrame with advertisements',
         'plain (non-sealed-box) configuration: paths travel as plaintext EncryptedData, display names ignored',
         'limits above 22 hops are not exercised end to end by the differential run (meshes of at most 22 agents); the theorem covers every limit',
     ],
@@ -45,7 +45,7 @@ PROP = dict(
         category="proof",
         text='Lean theorem C15_holds: with max_hops >= 1, in every reachable state no stored route has a path longer than the limit and no forwarded copy carries one; an agent beyond the limit neither stores nor forwards (C15_beyond), at the limit it stores without forwarding (C15_at_limit). The configuration -> flooder wiring is tied through the real agent.New (engine c15w)',
         design_ref='DESIGN.md section 5 C15',
-        note="Lean kernel; flood LTS model tied by the differential run; logical clock; expiry as a free op; no disconnect/withdraw",
+        note="Lean kernel; flood LTS model tied by the differential run; logical clock; expiry as a free op; no disconnect",
         technique="Lean 4 proof (inductive invariants over a network LTS) + differential correspondence harness on N real Flooder/Manager pairs",
     ),
 )
